@@ -138,4 +138,12 @@ def r3_to_block(ctx):
     }, body.where(rets[0][0], rets[0][1]), prog=ctx.prog)
 
 
-RULES = [r1_header_gate, r2_result_provenance, r3_to_block]
+def shared(ctx):
+    """'every honestly produced block is accepted' needs order-independence of the batch (C03.R2), a complete header (C07.R1) and a transaction commitment over the whole transactions (C07.R5)"""
+    from rules.engine import core
+    from rules.props import c03, c07
+    core.import_rules(ctx, [c03.r2_batch_commutativity], "X03")
+    core.import_rules(ctx, [c07.r1_header_map, c07.r5_tx_commitment], "X07")
+
+
+RULES = [r1_header_gate, r2_result_provenance, r3_to_block, shared]
